@@ -28,7 +28,7 @@ impl Scenario for C06 {
     }
 
     fn rule(&self) -> &'static str {
-        "run i takes the pair of non-empty subsets of {plain, aes128, aes256, chacha20} number i mod 225 (all 225 pairs are covered every 225 runs; the empty list means 'defaults' to the configuration parser and is the 3-cipher set); speeds per cipher and side from the grid {0, 1, 50, 50 (tie), 400, 3.4e38}; 2-4 variants per run with independent random orders of both lists and initiator in {A, B, both at once}, in 40 % of the runs one variant has the cipher list of the first ping/pong edited in transit (algorithm id, a speed byte, the list length). Oracle: independent reference (plain iff both allow it, else a common cipher whose slower side is fastest, else none): both ends equal and among the reference maximisers, clean 'no common algorithms' failure iff none is shared, never plain without mutual consent, the same cipher under every order and initiator assignment, an edited list is rejected without state change and the genuine retransmission still yields the reference cipher, established ends open each other's datagrams. Non-trivial: at least one negotiation was checked."
+        "run i takes the pair of non-empty subsets of {plain, aes128, aes256, chacha20} number i mod 225 (all 225 pairs are covered every 225 runs; the empty list means 'defaults' to the configuration parser and is the 3-cipher set); speeds per cipher and side from the grid {0, 1, 50, 50 (tie), 400, 3.4e38, and the fractional near-ties 0.4, 0.6, 99.6, 100.2, 100.4, 100.5}; 2-4 variants per run with independent random orders of both lists and initiator in {A, B, both at once}, in 40 % of the runs one variant has the cipher list of the first ping/pong edited in transit (algorithm id, a speed byte, the list length). Oracle: independent reference (plain iff both allow it, else a common cipher whose slower side is fastest, else none): both ends equal and among the reference maximisers, clean 'no common algorithms' failure iff none is shared, never plain without mutual consent, the same cipher under every order and initiator assignment, an edited list is rejected without state change and the genuine retransmission still yields the reference cipher, established ends open each other's datagrams. Non-trivial: at least one negotiation was checked."
     }
 
     fn expected_probes(&self) -> Vec<&'static str> {
